@@ -369,6 +369,27 @@ def run(F, R, tier):
                 R.check(ok, "C04.R6", R.key("C04.R6", fid, callee.split("::")[-1]), q.where(Bf, bi),
                         "%s: key args %s – table: %s" % (owner, kinds, exp),
                         "host call in %s passes key args %s; table says %s (a new unsigned host call must be reviewed)" % (owner, kinds, exp))
+                if signed and owner != "attest_key":
+                    # "under the latched key": id and secret are read from the key keeper for this very request, not remembered
+                    fresh = True
+                    seen_o = []
+                    for i in (gi, ki):
+                        org = Bf.origins(t["args"][i])
+                        seen_o.append(sorted(map(str, org)))
+                        if not org or not all(o[0] == "call" and "KeyKeeperSharedState::get_current_key" in q.base_name(o[1]) for o in org):
+                            fresh = False
+                    R.check(fresh, "C04.R6", R.key("C04.R6", fid, "latched-key-read-per-request"), q.where(Bf, bi),
+                            "%s signs with the key read from the key keeper in this call (no remembered key)" % owner,
+                            "%s signs with a key that is not (only) the key keeper's current key read for this request: %s" % (owner, seen_o))
+                elif signed:
+                    # attestation signs with the key being attested (the parameter), by construction not yet the latched one
+                    okp = True
+                    for i in (gi, ki):
+                        org = Bf.origins(t["args"][i], deep=True)
+                        if not org or not all(o[0] == "param" and o[1] == "key" for o in org if o[0] != "agg"):
+                            okp = False
+                    R.check(okp, "C04.R6", R.key("C04.R6", fid, "attest-signs-with-attested-key"), q.where(Bf, bi),
+                            "attest_key signs with the id and value of the key it attests (its `key` parameter)")
     R.floor("C04.R6", n_sites, 7, "build_request/get call sites outside hyper_client")
 
     canonical_form_table(F, R)
